@@ -696,6 +696,22 @@ class Env:
             return False
         return self.assume(t, AV.const(t[1], v))
 
+    def consistent(self):
+        """re-check every recorded refinement of a compound term against the value recomputed from its operands
+        (assumptions added later may contradict an earlier branch decision)"""
+        self.cache = {}
+        for t, r in list(self.ref.items()):
+            if t[0] != 'o':
+                continue
+            base = self._av_op(t)
+            if base.meet(r) is None:
+                return False
+        for t, ex in self.excl.items():
+            a = self.av(t)
+            if a.is_const() and a.lo in ex:
+                return False
+        return True
+
     def possible(self, t, v):
         """may term t take value v on this path?"""
         if v in self.excl.get(t, ()):
